@@ -6,7 +6,18 @@ FUNCTIONS = [
     'circus.watcher:Watcher.reap_processes',
     'circus.watcher:Watcher.reap_process',
     'circus.watcher:Watcher.is_stopped',
+    # stopped stays stopped: the periodic check and spawn do nothing on a stopped watcher
+    'circus.watcher:Watcher.manage_processes',
+    'circus.watcher:Watcher.spawn_process',
+    # arbiter level: every watcher is stopped by stop / rm (unless nostop)
+    'circus.arbiter:Arbiter._stop_watchers',
+    'circus.arbiter:Arbiter.stop',
+    'circus.arbiter:Arbiter.rm_watcher',
+    'circus.arbiter:Arbiter.iter_watchers',
 ]
+EXCLUDE_CLAUSES = ['post[accounted]:Watcher.spawn_process',
+                   # C09's clause on the shared contract of manage_processes (known finding F-13 there)
+                   'post[dead-removed-are-reaped]:Watcher.manage_processes']
 LEMMAS = []
 FRAMES = []
 ASSUMPTIONS = ['A-PY', 'A-REAL', 'A-1THREAD', 'T-KERNEL waitpid / wait-status layout', 'T-PSUTIL', 'A-PIDREUSE',
